@@ -17,9 +17,8 @@ Code model: `GMRES.gmres = GMRES.gmresCore … dropLastRow`, `dropLastRow = fals
 the repair of defect (b) (commit 9a9bf4d: all `m+1` rows of the Hessenberg matrix enter the normal
 equations, column-wise padding mask).
 
-Proved here (exact arithmetic; the dense `solve` is a parameter with its contract `solveContract`
-as a hypothesis; one right-hand side — columns of a batch are stepped independently by
-`C15_model_invariant`):
+ROUND 1 (first part of this file; exact arithmetic; ONE right-hand side; the dense `solve` is a parameter with the
+per-call contract `solveContract` as a hypothesis — rounds 2 and 3 below remove these restrictions, see there):
 * `C13_partial` — `gmres` returns the residual minimiser over `x₀ + K_s` (`s` executed steps);
 * `C13_le_initial` — consequently the residual never exceeds the initial one;
 * `C13_exact_at_grade` — the residual is zero once the Krylov space is exhausted (exact breakdown
@@ -27,12 +26,18 @@ as a hypothesis; one right-hand side — columns of a batch are stepped independ
   column for any batch (the `1` forms `b − A x₀`; the property's "m products" is read as the Krylov
   products);
 * `C13_maskExact_clause_needed` — the clause `maskExact` excludes a genuine deviation.
-Named clauses: `resNonzero` (`b − A x₀ ≠ 0`; the real code returns NaN otherwise — known finding
-`zeroResidual`), `noBreakdown` / `exactBreakdown`, `maskExact` (the padding mask marks exactly the
-unexecuted steps — known finding `maskExact`), `solveContract`, `krylovRegular`.
-Why `_partial`: the clauses above; NOT proved (oracle-checked only): monotonicity in `m`, several
-columns with different grades in one batch, floating point.
-Lemmas about the former behaviour (`drop = true`): `C13_dropped_row_is_FOM`, `C13_dropped_row_witness`.
+Named clauses of THESE three statements: `resNonzero` (`b − A x₀ ≠ 0`; the real code returns NaN otherwise — known
+finding `zeroResidual`), `noBreakdown` / `exactBreakdown`, `maskExact` (the padding mask marks exactly the unexecuted
+steps — known finding `maskExact`), `solveContract`, `krylovRegular`.  Of these, `solveContract` and `krylovRegular` are
+hypotheses of the round-1 statements ONLY: round 2 replaces the first by the uniform contract `SolverSound` and PROVES
+the second (`C13_krylov_optimal`, `C13_exact_at_grade_injective`); `noBreakdown` / `exactBreakdown` are restated on the
+inputs in rounds 2 and 3.
+Current status of what round 1 left open: monotonicity in `m` is PROVED (`C13_monotone`, round 2); batches whose
+columns have different grades are PROVED column-wise (`C13_batch_*`, round 3); `s` versus `m` is characterised
+(`C13_steps`, round 3).  NOT proved (covered by the correspondence check only): floating point, and the clause
+`maskExact`, which remains a condition on the computed `H`.
+Lemmas about the former behaviour (`drop = true`, regression detector `keepLastRow` of the harness):
+`C13_dropped_row_is_FOM`, `C13_dropped_row_witness`.
 
 ROUND 2 (second half of this file; nothing above was changed):
 * `C13_krylov_span` — without breakdown before step `s`, `span{q₀…q_{j-1}} = K_j(A, r₀)` (`Arnoldi.krylov`), `j ≤ s+1`;
@@ -60,6 +65,8 @@ ROUND 3 (third part of this file; nothing above was changed):
   floating point that is the recorded clause `breakdownNotMasked`).  The columns are coupled ONLY through `S`.
   Witnesses: `C13_steps_witness`, `C13_batch_witness` (batch `[e₀, e₂]` on the 3 × 3 system),
   `C13_remaining_bundles_witness` (`C13_monotone` with caps 1 ≤ 2, `C13_exact_at_dim`, `C13_exact_at_grade_input`).
+ROUND 4: `C13_batch_of_inputs_witness` — `C13_batch_exact_at_grade_of_inputs` applied to column 1 of the batch `[e₂, e₀]`
+  on the 3 × 3 system (every hypothesis discharged on that column's inputs).
 CONTRACTS that remain: `SolverSound solve` (LAPACK `gesv` in exact arithmetic: on a nonsingular system the returned
 vector solves it); exact real/complex arithmetic.  Clause that remains a condition on the computed `H`: `maskExact`
 (sufficient checkable condition: `GMRES.maskExact_of_entries`; counter-witness `C13_maskExact_clause_needed`).
@@ -747,6 +754,44 @@ theorem C13_remaining_bundles_witness :
       (by rw [hr, hidx3]; exact hgrade) (by rw [hr, hidx3]; exact Hess3.mask3) exactSolve_sound
       Hess3.A_injective
 
+/-- **witness for `C13_batch_exact_at_grade_of_inputs`** (round 4): the batch `[e₂, e₀]`, `x₀ = [0, 0]` on
+`A = [[1,1,0],[2,1,1],[0,3,1]]`, `max_iters = 3`, `tol = 1/100`, column `j = 1` (`b = e₀`, Krylov distances
+`1, 2, 6, 0`, grade `g = 3`): every hypothesis of the theorem is discharged ON THE INPUTS of that column — nothing is
+assumed or computed about the other column `e₂` or about the shared step count — and the column is solved exactly. -/
+theorem C13_batch_of_inputs_witness :
+    ∃ x, (gmres exactSolve (⇑Hess3.A) 3 3 (RCLike.ofReal (1 / 100 : ℝ) : ℝ)
+        [Hess3.e 2, Hess3.e 0] [0, 0]).soln[1]? = some x ∧ Hess3.e 0 - Hess3.A x = 0 := by
+  have hr : Hess3.e 0 - Hess3.A 0 = Hess3.e 0 := by simp
+  obtain ⟨d0, d1, d2, d3⟩ := Hess3.krylovDist_vals
+  have hgrow : ∀ i, i + 1 < 3 → (1 / 100 : ℝ) / 2 * krylovDist Hess3.A (Hess3.e 0) i ≤
+      krylovDist Hess3.A (Hess3.e 0) (i + 1) := by
+    intro i hi
+    have : i = 0 ∨ i = 1 := by omega
+    rcases this with rfl | rfl
+    · rw [d0, d1]; norm_num
+    · rw [d1, d2]; norm_num
+  have hstop : ∀ k, 1 ≤ k → k < 3 →
+      (1 / 100 : ℝ) * krylovDist Hess3.A (Hess3.e 0) 1 * krylovDist Hess3.A (Hess3.e 0) (k - 1) <
+        krylovDist Hess3.A (Hess3.e 0) k * krylovDist Hess3.A (Hess3.e 0) 0 := by
+    intro k hk1 hk
+    have : k = 1 ∨ k = 2 := by omega
+    rcases this with rfl | rfl
+    · rw [d0, d1]; norm_num
+    · rw [d0, d1, d2]; norm_num
+  have hgrade : (Hess3.A ^ 3) (Hess3.e 0) ∈ krylov Hess3.A (Hess3.e 0) 3 := by
+    have hcl : IsClosed ((krylov Hess3.A (Hess3.e 0) 3 : Submodule ℝ Hess3.E3) : Set Hess3.E3) :=
+      Submodule.closed_of_finiteDimensional _
+    have hne : ((krylov Hess3.A (Hess3.e 0) 3 : Submodule ℝ Hess3.E3) : Set Hess3.E3).Nonempty :=
+      ⟨0, Submodule.zero_mem _⟩
+    exact (hcl.mem_iff_infDist_zero hne).mpr d3
+  exact C13_batch_exact_at_grade_of_inputs exactSolve Hess3.A 3 3 (1 / 100) (by norm_num)
+    [Hess3.e 2, Hess3.e 0] [0, 0] 1 (Hess3.e 0) 0 rfl rfl (by rw [hr]; exact Hess3.e0_ne) 3 (by norm_num)
+    (by norm_num)
+    (by rw [hr]; exact hgrow)
+    (by rw [hr]; exact hstop)
+    (by rw [hr]; exact hgrade)
+    (by rw [hr]; exact Hess3.mask3) exactSolve_sound Hess3.A_injective
+
 #print axioms C13_steps
 #print axioms C13_krylov_optimal_at_cap
 #print axioms C13_exact_at_grade_of_inputs
@@ -757,3 +802,4 @@ theorem C13_remaining_bundles_witness :
 #print axioms C13_steps_witness
 #print axioms C13_batch_witness
 #print axioms C13_remaining_bundles_witness
+#print axioms C13_batch_of_inputs_witness
